@@ -21,6 +21,23 @@ Fixpoint s (x : string) : str :=
 
 Arguments s x%string.
 
+(* compact literal for generated case files: printable ASCII stands for itself, backslash + 6 hex digits is a code point *)
+Definition hexval (c : N) : N := if c <? 58 then c - 48 else c - 87.
+Fixpoint u (x : string) : str :=
+  match x with
+  | EmptyString => []
+  | String a r =>
+      if N_of_ascii a =? 92 then
+        match r with
+        | String h1 (String h2 (String h3 (String h4 (String h5 (String h6 r'))))) =>
+            (((((hexval (N_of_ascii h1) * 16 + hexval (N_of_ascii h2)) * 16 + hexval (N_of_ascii h3)) * 16
+               + hexval (N_of_ascii h4)) * 16 + hexval (N_of_ascii h5)) * 16 + hexval (N_of_ascii h6)) :: u r'
+        | _ => []
+        end
+      else N_of_ascii a :: u r
+  end.
+Arguments u x%string.
+
 Fixpoint str_eqb (a b : str) : bool :=
   match a, b with
   | [], [] => true
@@ -383,12 +400,20 @@ Definition flat_body (b : body) : N * (option str * (option str * (option str * 
   | BHtml r d n => (2, (None, (Some r, (d, n))))
   end.
 
+(* in per-request comparisons a body note equal to the app's own note is abbreviated to [1] (the text is compared by run_hint) *)
+Definition short_note (hint : str) (b : N * (option str * (option str * (option str * option str)))) :=
+  let '(k, (e, (r, (d, n)))) := b in
+  (k, (e, (r, (d, match n with Some t => if str_eqb t hint then Some [1] else Some t | None => None end)))).
+
 (* input: (auth, proxy_auth_headers, proxy_proof_required), leaf behaviour, Accept
    output: ((status, (reason hdr, (proxy hdr, (cache-control, retry-after)))), (body, consulted)) *)
 Definition run_case (i : (cfg * list str * bool) * list (N * outcome) * option str) :=
   let '(c, hd, pf, el, acc) := i in
   let r := handle (mkApp c hd pf) (env_of el) acc in
-  ((status r, (h_reason r, (h_proxy r, (h_cache r, h_retry r)))), (flat_body (rbody r), consulted (env_of el) c)).
+  ((status r, (h_reason r, (h_proxy r, (h_cache r, h_retry r)))), (short_note (app_hint (mkApp c hd pf)) (flat_body (rbody r)), consulted (env_of el) c)).
+
+(* the note of an app, compared once per app *)
+Definition run_hint (i : cfg * list str * bool) : str := let '(c, hd, pf) := i in app_hint (mkApp c hd pf).
 
 Definition flat_cres (c : cres) : N * (N * (str * str)) :=
   match c with
